@@ -1,4 +1,74 @@
-from . import check_world, check_wrap
+"""C06 = the world engine (a refused event has no effect; no panic on hostile events) + the ffi engine (the
+foreign-language binding layer under arbitrary string arguments, first sentence of the property)."""
+import collections, json
+from . import check_world
+from . import common as C
+from . import check_wrap
 PROP = "C06"
+
+FFI_RULE = ("every #[uniffi::export] function of crates/mdk-uniffi called on real binding objects (two Mdk instances that set up six groups, invitations and messages through "
+            "the binding API): one scripted session with valid arguments for every function, then per function a fresh session with the valid call and EVERY class of EVERY "
+            "argument, one argument at a time (ids: empty / odd / non-hex / upper-case / 31, 33, 64, 1000 bytes / unknown / unicode / NUL / 1 MB; JSON: not JSON / wrong shape / "
+            "nested 100000 deep / huge numbers / wrong kind / each field missing / extra and duplicate fields; relay URLs: 40 shapes; tag lists with empty tags and strings; "
+            "sort orders in wrong case; limits 0 / u32::MAX; thresholds u64::MAX; byte vectors of 0..1 MB), then seeded random calls with up to three hostile arguments on "
+            "varying objects / groups; catch_unwind around every call, mutex probed after a panic.  non-trivial = a call with at least one argument of a non-valid class whose op "
+            "line was executable on both sides; distinct by op line")
+
+def ffi_part(ob, facts, failures, coverage, tier, seed):
+    from . import ffieng as F
+    # the theorems of the binding layer live in their own module: attribute a broken proof to ITS theorem
+    # (Props/C06.lean only restates them) and audit their axioms directly
+    C.lake_build(ob, ["MdkVerif.Props.C06Ffi"], exe=False)
+    C.axioms_audit(ob, "MdkVerif.Props.C06Ffi")
+    cases = F.load_traces(F.corpus_paths(PROP)) + F.generate(seed, tier)
+    F.run(cases)
+    corr, compared, decided = F.correspondence(cases, facts)
+    ofails, stats = F.oracle(cases)
+    failures += ofails + corr
+    _, exported = F.stage_table(facts)
+    calls = [c for c in cases if not c["op"].startswith("reset")]
+    ok_methods = {c["method"] for c in calls if c["impl"].startswith("ok")}
+    hit = collections.defaultdict(set)
+    for c in calls:
+        if c["cls"] not in ("happy", "valid", "prelude", "context", "random-valid") and "+" not in c["cls"] and not c["cls"].startswith("session-cfg="):
+            hit[c["method"]].add(c["cls"])
+    want = {m: {f"{k}:{cls}" for k, ty, valid in args if ty != "welcome" for cls, _ in F.classes_for(ty, valid)} |
+               {f"w.{f}:{cls}" for k, ty, valid in args if ty == "welcome" for f, fty, fv in F.WELCOME_FIELDS for cls, _ in F.classes_for(fty, fv)}
+            for m, (on, args) in F.METHODS.items()}
+    missing = [f"{m}|{x}" for m in want for x in sorted(want[m] - hit[m])]
+    ob.add("tie:ffi:every-exported-function-driven", set(exported) == set(F.METHODS) and set(exported) <= ok_methods,
+           f"exported={sorted(set(exported) ^ set(F.METHODS))} never-ok={sorted(set(exported) - ok_methods)}")
+    ob.add("tie:ffi:every-method-x-class-run", not missing, "; ".join(missing[:8]))
+    ob.add("oracle:ffi:no-panic-no-poisoned-mutex", stats["panics"] == 0 and stats["died"] == 0, f"panics={stats['panics']} poisoned={stats['poisoned']} died={stats['died']}")
+    nontrivial = {c["op"] for c in calls if c["cls"] not in ("happy", "valid", "prelude", "context", "random-valid") and c["impl"] != "bad-op"}
+    kinds = collections.Counter(F.kind_of(c) for c in calls)
+    outcomes = collections.Counter(":".join(c.get("outcome", "not-compared").split(":")[:2]) for c in calls)
+    by_method = {}
+    for c in calls:
+        by_method.setdefault(c["method"], c)
+        if c["impl"] == "err:InvalidInput" and by_method[c["method"]]["impl"].startswith("ok"):
+            by_method[c["method"]] = c
+    coverage["ffi"] = {
+        "evaluations": len(calls), "distinct_nontrivial": len(nontrivial), "rule": FFI_RULE,
+        "sessions": sum(1 for c in cases if c["op"].startswith("reset")), "steps_compared": compared, "decided_by_model_alone": decided,
+        "exported_functions": len(exported), "functions_with_an_ok_answer": len(ok_methods & set(exported)),
+        "method_x_class_cells": sum(len(v) for v in want.values()), "method_x_class_cells_run": sum(len(want[m] & hit[m]) for m in want),
+        "result_kind_histogram": dict(kinds.most_common()), "parse_outcome_histogram": dict(outcomes.most_common()),
+        "method_class_result_histogram": F.histogram(cases), "oracle_stats": stats,
+        "correspondence_disagreements": len(corr), "oracle_failures": len(ofails),
+        "samples": [{"cls": c["cls"], "op": c["op"][:300], "impl": c["impl"], "message": c["msg"][:120], "model": c["model"]} for c in list(by_method.values())[:40]],
+    }
+    coverage["evaluations_ffi_calls"] = len(calls)
+    coverage["rule"] = coverage.get("rule", "") + "  ||  ffi engine (binding layer): see coverage.ffi.rule"
+    for sig, e in stats["ambiguous_inputs"].items():
+        print(f"OBSERVATION: property={PROP} ambiguous-input {sig}: `{e['op']}` answered {e['answer']} ({e['count']}x) — not a C06 failure (nothing panicked); reported for C15")
+    return ["ffi engine: the binding crate is driven through its exported RUST functions (the bodies behind #[uniffi::export]); uniffi's generated C scaffolding (lifting of RustBuffer, "
+            "invalid UTF-8 in a foreign string, its own catch_unwind that turns a panic into an InternalError) is not exercised",
+            "ffi engine: absence of panics is a runtime observation on the calls of this run, not a theorem; the theorems are about the parse helpers' decision logic (Model/Ffi.lean), "
+            "tied by the correspondence diff and by the regenerated tables / parse plans (Generated.ffi*)",
+            "ffi engine: JSON arguments are judged by the generator's construction (hint !ok / !bad / !unk in the op line), relay URLs by the three-valued Ffi.relayVerdict; "
+            "where the model is undecided both outcomes are tolerated and the result is covered by the no-panic oracle only",
+            "ffi engine: the step that raised InvalidInput is recognised by the literal error texts regenerated from lib.rs (facts ffiErrorTexts) and the hex crate's three error texts"]
+
 def run(tier, seed, t0, H):
-    return check_world.run(PROP, tier, seed, t0, H, second=check_wrap.extra)
+    return check_world.run(PROP, tier, seed, t0, H, second=check_wrap.extra, second_engine=ffi_part)
